@@ -1,18 +1,27 @@
 (* Executable driver for the C12 correspondence.  A case is one call of a Generator's
    generate(): the declared bounds, the requested number and the oracle tape recorded from the
-   implementation run (uniforms / permutations).  The model's output is a matrix of exact
-   rationals; the implementation's floats come in as exact rationals, each with the tolerance
-   the harness states for it, and `c12_eqb` checks |model - implementation| <= tolerance entry
-   by entry (and the same shape).  The driver also validates the tape against the hypotheses of
-   the theorems (draws in [0,1), index arrays that are permutations of range(N)) and fails
-   closed (None) when it has the wrong shape. *)
+   implementation run.  For the Latin hypercube the tape is the kind-tagged list of calls made on
+   the numpy RandomState, in call order (ERand = the matrix returned by rand(samples, n), EPerm =
+   the index array returned by permutation(range(samples))); the driver accepts exactly the call
+   pattern of doe._lhsclassic (one rand, then one permutation per column) and fails closed (None)
+   on any other pattern.  For the random generator the tape is the list of random() results.
+
+   The model's output is a matrix of exact rationals; the implementation's floats come in as exact
+   rationals, each with the tolerance the harness states for it, and `c12_eqb` checks
+   |model - implementation| <= tolerance entry by entry (and the same shape).  The driver also
+   validates the tape against the hypotheses of the theorems (draws in [0,1), index arrays that
+   are permutations of range(N)).  None = the code raises / the tape does not fit. *)
 From Coq Require Import List ZArith QArith Qabs Bool.
 From Artap Require Export Base.Ord Model.Samplers.
 Import ListNotations.
 Local Open Scope Q_scope.
 
+Inductive c12_event :=
+| ERand (m : list (list Q))
+| EPerm (p : list nat).
+
 Inductive c12_case :=
-| CLhs (N : nat) (bs : list (Q * Q)) (u : list (list Q)) (perms : list (list nat))
+| CLhs (N : nat) (bs : list (Q * Q)) (tape : list c12_event)
 | CHalton (N : nat) (bs : list (Q * Q))
 | CGrid (k : nat) (bs : list (Q * Q))
 | CRandom (N : nat) (ps : list (Q * Q * Q)) (tape : list Q).
@@ -24,16 +33,42 @@ Definition in_unitb (u : Q) : bool := Qle_bool 0 u && negb (Qle_bool 1 u).
 Definition is_permb (N : nat) (p : list nat) : bool :=
   (length p =? N)%nat && forallb (fun i => existsb (Nat.eqb i) p) (seq 0 N).
 
+Fixpoint perms_of (tape : list c12_event) : option (list (list nat)) :=
+  match tape with
+  | [] => Some []
+  | EPerm p :: rest => option_map (cons p) (perms_of rest)
+  | ERand _ :: _ => None
+  end.
+
+(* the call pattern of _lhsclassic: rand once, then permutation once per column *)
+Definition lhs_tape (n : nat) (tape : list c12_event) : option (list (list Q) * list (list nat)) :=
+  match tape with
+  | ERand u :: rest =>
+      match perms_of rest with
+      | Some ps => if (length ps =? n)%nat then Some (u, ps) else None
+      | None => None
+      end
+  | _ => None
+  end.
+
 Definition exact (m : list (list Q)) : list (list (Q * Q)) := map (map (fun x => (x, 0))) m.
 
 Definition c12_run (c : c12_case) : c12_obs :=
   match c with
-  | CLhs N bs u perms =>
+  | CLhs N bs tape =>
       let n := length bs in
-      if (length u =? N)%nat && forallb (fun row => (length row =? n)%nat && forallb in_unitb row) u
-         && (length perms =? n)%nat && forallb (is_permb N) perms
-      then Some (exact (build_lhs N bs u perms)) else None
-  | CHalton N bs => option_map exact (build_halton N bs)
+      if (N =? 0)%nat && negb (n =? 0)%nat then None    (* IndexError: permutation(range(0)) is a float array *)
+      else
+      match lhs_tape n tape with
+      | Some (u, perms) =>
+          if (length u =? N)%nat && forallb (fun row => (length row =? n)%nat && forallb in_unitb row) u
+             && forallb (is_permb N) perms
+          then Some (exact (build_lhs N bs u perms)) else None
+      | None => None
+      end
+  | CHalton N bs =>
+      if (length bs =? 0)%nat then None                  (* ValueError: np.stack of an empty list *)
+      else option_map exact (build_halton N bs)
   | CGrid k bs =>
       if (k =? 1)%nat && negb (length bs =? 0)%nat then None      (* ZeroDivisionError in the code *)
       else Some (exact (uniform_grid k bs))
